@@ -349,6 +349,22 @@ fn enumerate6(seed: u64, run: u64, tier: Tier, slices: u64) -> Plan {
             }
         }
     }
+    // passwords that collide under cheap 32-bit fingerprints (what a cache or memo would key on): wrap
+    // with one, unwrap with it, then with its partner (must be refused), then with the first again
+    if wk == WrapKind::Pw && kk == Kind::Local {
+        let pairs = crate::faults::fingerprint_collisions();
+        for (_, a, c) in pairs.iter() {
+            let b2 = b.blob_slot();
+            let rng2 = b.healthy_rng();
+            let (pa, pc) = (SecretRef::Password { bytes: Bytes::hex(a) }, SecretRef::Password { bytes: Bytes::hex(c) });
+            b.push(Step::Wrap { blob: b2, node: 0, wk, key, with: pa.clone(), params: params.clone(), rng: rng2 });
+            for &r in &readers {
+                b.push(Step::Unwrap { blob: b2, node: r, with: pa.clone(), faults: vec![], as_kind: None });
+                b.push(Step::Unwrap { blob: b2, node: r, with: pc.clone(), faults: vec![], as_kind: None });
+                b.push(Step::Unwrap { blob: b2, node: r, with: pa.clone(), faults: vec![], as_kind: None });
+            }
+        }
+    }
     // k3.seal: the ephemeral key is an encoded point. Further seals (each with its own ephemeral key,
     // of either parity) whose point tag is rewritten to every other SEC1 tag: compressed with the other
     // parity, compact (05: the root with the smaller y), hybrid, uncompressed, infinity
